@@ -12,17 +12,17 @@ CHECKS = {
          "DESIGN.md §3 C11"),
  "C15": ("model_checking",
          "stateless model checking of the real code under a cooperative scheduler with happens-before state caching; every schedule is simultaneously a race-detector execution whose happens-before graph only contains the library's own synchronisation (scheduler hand-offs hidden with RaceDisable/RaceEnable)",
-         "Scenarios S-A (rows of different column types), S-B (same statement/portal names, different queries and values), S-C (different users + configured global parameters), thorough: S-D (3 connections), S-E (COPY-in vs queries); scripts pre-loaded one message per segment, handlers with yield points. Every schedule with <=2 preemptions (<=3 for S-A/S-C in thorough) is executed on the instrumented real code built with -race. Oracle 1: each connection's transcript (ParameterStatus as multiset) and callback trace equal those of the same script served alone; the configured parameter map is unchanged. Oracle 2: the race detector reports nothing (reports are attributed to the schedule that just ran and keyed by their frames).",
+         "Scenarios S-A (rows of different column types), S-B (same statement/portal names, different queries and values), S-C (different users + configured global parameters), S-F (one connection in its error / skip-until-Sync window while the other works), S-G (two cleartext-password authentications interleaving), thorough: S-D (3 connections), S-E (COPY-in vs queries); scripts pre-loaded one message per segment, handlers and validator with yield points. Quick: every schedule with <=2 preemptions; thorough: ALL schedules (unbounded, happens-before state cache) for S-A, S-C, S-G and <=3 preemptions for the rest, on the instrumented real code built with -race; plus a free-running -race pass over the same bodies as a cross-check. Oracle 1: each connection's transcript (ParameterStatus as multiset) and callback trace equal those of the same script served alone; the configured parameter map is unchanged. Oracle 2: the race detector reports nothing (reports are attributed to the schedule that just ran and keyed by their frames).",
          "Race clause relies on the Go race detector's happens-before precision; pgx / stdlib are observed, not instrumented. Harness state shared between threads is only written from //go:norace code so that the harness adds no happens-before edges between connections.",
          "DESIGN.md §3 C15"),
  "C16": ("model_checking",
          "stateless model checking of the real code under a cooperative scheduler (check-time AST instrumentation of every sync/atomic/channel/go operation, transport operations as scheduling points), depth-first enumeration of all schedules up to a preemption bound with happens-before state caching",
-         "Scenarios X1-X5 (X6 in thorough): connections that are idle, in the middle of reading a message, about to start a handler or inside a handler (handlers carry yield points), 1-2 concurrent Close callers plus a later second Close, Close racing the start of Serve. Every schedule with <=2 (quick, 1.26M schedules / 170k happens-before states) or <=3 (thorough) preemptions is executed on the instrumented real code. Oracle on every schedule: no thread panics, no deadlock, every Close and Serve return (Serve nil), no parser/statement function is running when Close returns and none starts afterwards (logical clock).",
+         "Scenarios X1-X5, X7 (X6 in thorough): connections that are idle, in the middle of reading a message, about to start a handler, inside a handler (handlers carry yield points) or discarding after a failed extended message, 1-2 concurrent Close callers plus a later second Close, Close racing the start of Serve. Quick: every schedule with <=2 preemptions (1.3M schedules / 180k happens-before states). Thorough: ALL schedules (unbounded; the happens-before state cache makes the space finite) for X1, X2, X3, X5, X6 and <=4 preemptions for X4, X7 (55M schedules). Oracle on every schedule: no thread panics, no deadlock, every Close and Serve return (Serve nil), for EVERY Close call: no parser/statement function is running when it returns and none starts afterwards (logical clock).",
          "Exhaustive up to the preemption bound for data-race-free code (C15 checks race freedom). The instrumented sources are regenerated from the current /repo tree on every run; nothing is committed to /repo. WaitGroup contract misuse is reported as a note only.",
          "DESIGN.md §3 C16"),
  "C01": ("model_checking",
          "exhaustive enumeration of (startup parameters x message in place of the password x validator outcome x continuation history x delivery mode) on a real server, judged by a three-state reference machine plus a differential run without authentication",
-         "27 messages in place of the password (well-formed with accepting / rejecting / failing validator, malformed, every other type byte, truncated, oversized, EOF) x 3 startup parameter sets x all continuations of <=2 (quick) / <=3 (thorough) letters x {pipelined in one segment, after quiescence} run on a fresh real Server; non-accepted => no AuthenticationOk, no ParameterStatus, no reply to later input, no callback, connection closed, class-28 error for a wrong password; accepted => same transcript and callbacks as without authentication.",
+         "27 messages in place of the password (well-formed with accepting / rejecting / failing validator, malformed, every other type byte, truncated, oversized, EOF) x 3 startup parameter sets x all continuations of <=3 (quick) / <=4 (thorough) letters x {pipelined in one segment, after quiescence} run on a fresh real Server; non-accepted => no AuthenticationOk, no ParameterStatus, no reply to later input, no callback, connection closed, class-28 error for a wrong password; accepted => same transcript and callbacks as without authentication.",
          "Not asserted: an ErrorResponse for validator failure / malformed input, a ReadyForQuery directly behind the rejection error, acceptance of a password message carrying surplus bytes.",
          "DESIGN.md §3 C01"),
  "C02": ("model_checking",
@@ -61,13 +61,13 @@ CHECKS = {
          "Not asserted: ReadyForQuery after the 54000 error; continue-or-close after a sub-minimum length.",
          "DESIGN.md §3 C10"),
  "C12": ("model_checking",
-         "exhaustive enumeration of startup packets x server configurations on a real server against a reference description of the negotiation (sequential part); schedules of concurrently connecting users are explored by the C15 scenarios",
-         "All startup key/value lists of <=3 (quick) / <=4 (thorough) pairs over 4 keys x 3 values incl. duplicates x 20 configurations (5 global maps x 2 versions x auth on/off); 8 malformed / CancelRequest packets x 20 configurations. Auth exchange, then a ParameterStatus block whose key set is exactly configured+standard keys each once, then exactly one ReadyForQuery(idle); handlers see exactly the sent client parameters, the announced server parameters and the connecting user; the configured map is unchanged; malformed => closed without callback; cancel => no byte, no callback.",
+         "exhaustive enumeration of startup packets x server configurations on a real server against a reference description of the negotiation, plus stateless schedule exploration (cooperative scheduler, -race) of two concurrently connecting users",
+         "All startup key/value lists of <=3 (quick) / <=4 (thorough) pairs over 4 keys x 3 values incl. duplicates x 20 configurations (5 global maps x 2 versions x auth on/off); 8 malformed / CancelRequest packets x 20 configurations, CancelRequest after a completed TLS upgrade (real crypto/tls client). Schedule part (merged into the same evidence): scenario S-C of the C15 engine — two users connecting concurrently to a server with configured global parameters, all schedules up to 2 preemptions (thorough: unbounded), race monitor on. Auth exchange, then a ParameterStatus block whose key set is exactly configured+standard keys each once, then exactly one ReadyForQuery(idle); handlers see exactly the sent client parameters, the announced server parameters and the connecting user; the configured map is unchanged; malformed => closed without callback; cancel => no byte, no callback.",
          "Not asserted: order inside the block; which duplicate key wins; value on collision of a configured key with a standard one.",
          "DESIGN.md §3 C12"),
  "C13": ("model_checking",
          "exhaustive enumeration of client message sequences after a CopyInResponse x handler reading policies x column count/format x simple/extended mode on a real server, compared per message with a reference simulation of the COPY sub-protocol",
-         "All sequences of length <=4 (quick) / <=5 (thorough) over 9 letters x 6 handler policies x {(1 col,text),(3 cols,binary)} x {simple, extended}, followed by Sync+Query (177k sessions quick): CopyInResponse format/columns, chunks seen by the handler byte-exact and in order, Flush/Sync invisible, CopyDone = EOF, CopyFail/foreign = non-EOF error, exactly one ErrorResponse and one ReadyForQuery per aborted cycle, COPY messages outside COPY ignored.",
+         "All sequences of length <=4 (quick) / <=5 (thorough) over 11 letters (CopyData x3, CopyDone, CopyFail, Flush, Sync, Query, unknown type, oversized CopyData, Terminate) x 6 handler policies x {(1 col,text),(3 cols,binary)} x {simple, extended}, followed by Sync+Query (387k sessions quick): CopyInResponse format/columns, chunks seen by the handler byte-exact and in order, Flush/Sync invisible, CopyDone = EOF, CopyFail/foreign = non-EOF error, exactly one ErrorResponse and one ReadyForQuery per aborted cycle, COPY messages outside COPY ignored.",
          "A handler that keeps reading after the abort error is only required to yield exactly one E and one Z.",
          "DESIGN.md §3 C13"),
  "C14": ("model_checking",
@@ -77,12 +77,12 @@ CHECKS = {
          "DESIGN.md §3 C14"),
  "C18": ("model_checking",
          "exhaustive enumeration of later-traffic histories over message sizes around the 4 KiB allocation granule and the message limit on a real server whose callbacks retain everything uncopied next to a private clone; invariant after every message",
-         "First phase retains startup parameters (validator and parser), database/user/password, a Query text, a Parse text, two Bind values; then every history of length <=3 (quick) / <=4 (thorough) over 15 letters (bodies 0,1,100,4090,4095,4096,4097,8191,8192; oversized 8193/20000; two COPY bursts incl. an oversized CopyData; two Bind batches). After every message every retained value must equal its clone; the portal is re-executed at the end.",
+         "First phase retains startup parameters (validator and parser), database/user/password, a Query text, a Parse text, two Bind values; then every history of length <=3 (quick) / <=5 (thorough) over 15 letters under limit 8192 and 14 letters under limit 1024 (below the 4 KiB allocation granule): bodies around the granule and the limit, oversized-and-skipped messages, COPY bursts incl. an oversized CopyData, Bind batches. Everything handed to callbacks in the later traffic is retained as well. After every message every retained value must equal its clone; the portal is re-executed at the end.",
          "CopyData payload views are not part of the statement and are not retained.",
          "DESIGN.md §3 C18"),
  "C19": ("model_checking",
          "exhaustive enumeration of (middleware count, failing position, auth, terminate hook) x command histories x delivery mode on a real server, judged by a lifecycle reference machine with context probes inside every callback",
-         "60 configurations x all histories of length <=3 (quick) / <=4 (thorough) over {Query ok, Query error, Parse+Bind+Execute+Sync, Terminate, EOF} x {message by message, one segment}: middlewares run once, in order, after auth + ParameterStatus and before ReadyForQuery, each seeing its predecessors' values; failure => no ReadyForQuery, no command, closed; every parser / statement call sees all values, client/server parameters, remote address, type map and a live context that is cancelled when the command ends; Terminate => hook exactly once, closed, nothing pipelined behind it runs.",
+         "60 configurations x all histories of length <=3 (quick) / <=5 (thorough) over {Query ok, Query error, Parse+Bind+Execute+Sync, a failing Bind without Sync, Terminate, EOF} x {message by message, one segment}: middlewares run once, in order, after auth + ParameterStatus and before ReadyForQuery, each seeing its predecessors' values; failure => no ReadyForQuery, no command, closed; every parser / statement call sees all values, client/server parameters, remote address, type map and a live context that is cancelled when the command ends; Terminate => hook exactly once, closed, nothing pipelined behind it runs.",
          "Context cancellation is observed at the next quiescence.",
          "DESIGN.md §3 C19"),
  "C20": ("exploration",
@@ -92,17 +92,17 @@ CHECKS = {
          "DESIGN.md §3 C20"),
  "C05": ("model_checking",
          "exhaustive enumeration of handler programs (result-writer op sequences x statement counts x parser outcomes) executed on a real server over an in-memory transport; every writer call and cycle compared with a reference state machine",
-         "Handler behaviour is an enumerated input: every sequence of <=4 (quick) / <=5 (thorough) result-writer operations over a 10-op alphabet x {return nil, error} x {0,2 columns}, products of 2-3 statements, parser error / zero statements / blank queries, each as first and as second Query of a connection, is executed on a fresh real Server; bytes emitted by each writer call are attributed exactly and compared with the writer state machine and the cycle grammar.",
+         "Handler behaviour is an enumerated input: every sequence of <=4 (quick) / <=6 (thorough) result-writer operations over a 10-op alphabet x {return nil, error} x {0,2 columns}, products of 2-3 statements, parser error / zero statements / blank queries, each as first and as second Query of a connection, is executed on a fresh real Server; bytes emitted by each writer call are attributed exactly and compared with the writer state machine and the cycle grammar.",
          "Reply attribution relies on quiescence of the in-memory transport. Not asserted: T for column-less statements, C for statements returning nil without Complete, calls after a successful Empty() beyond return<=>emission consistency.",
          "DESIGN.md §3 C05"),
  "C06": ("model_checking",
          "exhaustive enumeration of client message histories up to a depth bound over a 33-letter alphabet on a real server, per-message replies and callbacks checked against a set-valued (powerset) reference model",
-         "All histories of length <=3 over the full 33-letter alphabet, <=4 over a 16-letter core and <=5 over an 8-letter error core (thorough: 4/5/6) are replayed on a fresh real Server; after every message the quiescence-attributed reply and the callbacks must be allowed by at least one model state of the extended-protocol reference model (statements, portals, skipping).",
+         "All histories of length <=3 over the full 33-letter alphabet, <=5 over a 16-letter core and <=6 over an 8-letter error core (thorough: 5/6/8, 77M histories), plus all interleavings of <=4 (6) messages of two connections on one server (each judged by its own model instance), are replayed on a fresh real Server; after every message the quiescence-attributed reply and the callbacks must be allowed by at least one model state of the extended-protocol reference model (statements, portals, skipping).",
          "Set-valued model tolerates what the statement leaves open (listed in the evidence assumptions). Depth-bounded; names fixed to two statements / two portals / one unknown.",
          "DESIGN.md §3 C06"),
  "C17": ("exploration",
          "exhaustive enumeration of decorator nestings up to a depth bound, executed on the real code, compared against an independent reference walk",
-         "All error shapes (every nesting of the 16 decorator letters up to depth 4 quick / 5 thorough over 3 base texts, plus nil) are built with the real decorators, serialised by the real ErrorCode (and through a live session up to depth 2/3) and the strictly parsed ErrorResponse is compared field by field with an independent outermost-first model. Exhaustive for the stated alphabet and depth, nothing beyond it.",
+         "All error shapes (every nesting of 18 decorator letters — incl. source locations with an empty file / function — up to depth 4 quick / 5 thorough over 3 base texts, plus nil; plus a purity family: decorating a value again must not change what the original value reports) are built with the real decorators, serialised by the real ErrorCode (and through a live session up to depth 2/3) and the strictly parsed ErrorResponse is compared field by field with an independent outermost-first model. Exhaustive for the stated alphabet and depth, nothing beyond it.",
          "Trusts the independent strict ErrorResponse parser and the 40-line reference walk; decoration values are non-empty, NUL-free text.",
          "DESIGN.md §3 C17"),
 }
